@@ -347,6 +347,7 @@ package store
 //@   local stmt *sql.Stmt#1
 //@   local i int#2
 //@   assert [C01] row-written: i == rangeindex4 && p == writePoints[i] && pID == writePointIDs[i] at "stmt.Exec(pID, id, p.Type, p.Key, tNs, 0, p.Value, p.Text, p.Data, p.Tombstone, p.Origin)"
+//@   assert [C01] whole-batch-merged: forall k int :: triggers(mustW(dbPoints, points, k)) ==> (0 <= k && k < len(points) && mustW(dbPoints, points, k) ==> (exists w int :: 0 <= w && w < len(writePoints) && fromBatch(writePoints[w], points[k]))) at "tx.Prepare(`INSERT INTO node_points(id, node_id, type, key, time, idx, value, text, data, tombstone, origin) VALUES(?, ?, ?, ?, ?, ?, ?, ?, ?, ?, ?) ON CONFLICT(id) DO UPDATE SET type = ?3, key = ?4, time = ?5, idx = ?6, value = ?7, text = ?8, data = ?9, tombstone = ?10, origin = ?11 `)"
 //@   assert [C01] merge-written-from-batch: forall w int :: 0 <= w && w < len(writePoints) ==> (exists k int :: 0 <= k && k < len(points) && fromBatch(writePoints[w], points[k])) at "tx.Prepare(`INSERT INTO node_points(id, node_id, type, key, time, idx, value, text, data, tombstone, origin) VALUES(?, ?, ?, ?, ?, ?, ?, ?, ?, ?, ?) ON CONFLICT(id) DO UPDATE SET type = ?3, key = ?4, time = ?5, idx = ?6, value = ?7, text = ?8, data = ?9, tombstone = ?10, origin = ?11 `)"
 //@   requires sdb != nil && sdb.db != nil && acyclic(sdb)
 //@   modifies state(sdb.db), state(sql.Tx)
@@ -425,6 +426,7 @@ package store
 //@   local j int#1
 //@   local stmt *sql.Stmt#1
 //@   local i int#2
+//@   assert [C01] whole-batch-merged: forall k int :: triggers(mustW(dbPoints, points, k)) ==> (0 <= k && k < len(points) && points[k].Type != "nodeType" && mustW(dbPoints, points, k) ==> (exists w int :: 0 <= w && w < len(writePoints) && fromBatch(writePoints[w], points[k]))) at "tx.Prepare(`INSERT INTO edge_points(id, edge_id, type, key, time, idx, value, text, data, tombstone, origin) VALUES(?, ?, ?, ?, ?, ?, ?, ?, ?, ?, ?) ON CONFLICT(id) DO UPDATE SET type = ?3, key = ?4, time = ?5, idx = ?6, value = ?7, text = ?8, data = ?9, tombstone = ?10, origin = ?11 `)"
 //@   assert [C01] row-written: i == rangeindex5 && p == writePoints[i] && pID == writePointIDs[i] at "stmt.Exec(pID, edge.ID, p.Type, p.Key, tNs, 0, p.Value, p.Text, p.Data, p.Tombstone, p.Origin)"
 //@   requires sdb != nil && sdb.db != nil && acyclic(sdb)
 //@   modifies state(sdb.db), state(sql.Tx), state(sdb), &sdb.meta.RootID
